@@ -128,10 +128,10 @@ def gen_random(seed, ncases, maxlen=40):
         keys = r.sample(KEYS, r.randrange(1, 4))
         mode = r.choice(["dyadic", "dyadic", "decimal"])
         big = r.random() < 0.4
-        if r.random() < 0.3:
-            c.cmd([b"set", keys[0], b"str"])
-        elif r.random() < 0.1:
-            c.cmd([b"rpush", keys[0], b"e"])
+        if r.random() < 0.15:
+            c.cmd([b"set", keys[-1], b"str"])
+        elif r.random() < 0.05:
+            c.cmd([b"rpush", keys[-1], b"e"])
         for _ in range(r.randrange(1, maxlen + 1)):
             c.cmd(zset_cmd(r, keys, mode, big), sleep_ms=pick(r, SLEEPS) if r.random() < 0.12 else 0)
             c.dump()
@@ -240,5 +240,5 @@ def gen_ttl(seed, ncases):
 
 def gen_c12(seed, tier):
     if tier == "quick":
-        return gen_shapes(seed, 70) + gen_random(seed, 420) + gen_ttl(seed, 40)
-    return gen_shapes(seed, 900) + gen_random(seed, 6000, maxlen=60) + gen_ttl(seed, 500)
+        return gen_shapes(seed, 500) + gen_random(seed, 3500) + gen_ttl(seed, 250)
+    return gen_shapes(seed, 4000) + gen_random(seed, 24000, maxlen=60) + gen_ttl(seed, 2000)
